@@ -58,8 +58,8 @@ CHECKS["C16"] = dict(
           "Fault enumeration (bit flips, byte sets, 16-byte bursts at byte positions of both directions of sessions with CO / "
           "COT / COT-malicious on the wire) requires outcome error|stalled|crash|ok(correct). Partial: authenticity of the "
           "garbling scheme itself is cryptographic, covered by the enumeration, not by a theorem."),
-    note=TB + "Streaming sessions: result-loop decision logic shared and pinned by a structural fact; fault enumeration of "
-              "streaming sessions not yet included.")
+    note=TB + "Streaming sessions: result-loop decision logic shared (pinned by a structural fact) and included in the fault "
+              "enumeration.")
 
 CHECKS["C17"] = dict(
     category="proof", design_ref="DESIGN.md section 2 / C17",
